@@ -6,6 +6,7 @@ package main
 // guard, an intrinsic reason, or a single-construct exemption.
 
 import (
+	"regexp"
 	"fmt"
 	"go/constant"
 	"go/token"
@@ -263,13 +264,32 @@ func (a *Audit) site(fn *ssa.Function, kind, construct string, pos token.Pos, ok
 		a.r.ok(a.rule, fn, c, pos, why)
 		return
 	}
-	if reason, ex := a.exempt[a.exemptKey(fn, c)]; ex {
-		a.usedEx[a.exemptKey(fn, c)] = true
+	if key, reason, ex := lookupExempt(a.exempt, a.exemptKey(fn, c)); ex {
+		a.usedEx[key] = true
 		a.r.add(a.rule, fn, c, pos, "exempt", reason)
 		return
 	}
 	a.r.bad(a.rule, fn, c, pos, why)
 }
+
+// lookupExempt finds the exemption for a construct.  Whether a variable of the function lives in a cell
+// (because a closure captures it) or in a phi is not part of the construct's identity: both render as one token.
+func lookupExempt(table map[string]string, key string) (string, string, bool) {
+	if reason, ok := table[key]; ok {
+		return key, reason, true
+	}
+	nk := normVarTokens(key)
+	for k, reason := range table {
+		if normVarTokens(k) == nk {
+			return k, reason, true
+		}
+	}
+	return "", "", false
+}
+
+var localTok = regexp.MustCompile(`\blocal\b`)
+
+func normVarTokens(s string) string { return localTok.ReplaceAllString(s, "φ") }
 
 func exprOf(e *Engine, v ssa.Value) string {
 	return e.keyOf(v).String()
@@ -917,9 +937,15 @@ func (a *Audit) indexSite(fn *ssa.Function, b *ssa.BasicBlock, in ssa.Instructio
 		return
 	}
 	// slice or string: need 0 <= idx and idx <= len-1
-	lt := a.lenTermOf(x)
+	lt, ltOff := a.lenTermOf(x), int64(0)
+	if mk, ok := x.(*ssa.MakeSlice); ok {
+		// len(make([]T, n, …)) is n
+		if t, off, ok := a.e.linOf(mk.Len); ok {
+			lt, ltOff = t, off
+		}
+	}
 	okLo, whyLo := a.e.proveGE0(idx, b)
-	okHi, whyHi := a.e.proveLE(idx, 0, lt, -1, b)
+	okHi, whyHi := a.e.proveLE(idx, 0, lt, ltOff-1, b)
 	if okLo && okHi {
 		a.site(fn, "index", construct, instrPos(in), true, "0 <= index: "+whyLo+"; index < len: "+whyHi)
 		return
@@ -1010,7 +1036,19 @@ func (a *Audit) sliceSite(fn *ssa.Function, b *ssa.BasicBlock, in *ssa.Slice) {
 		}
 	} else if in.Low != nil {
 		if ok, why := a.e.proveLE(in.Low, 0, lt, 0, b); !ok {
-			problems = append(problems, "low <= len not proven ("+why+")")
+			// a sub-match of a constant pattern is at least as long as the shortest text its group can match
+			proved := false
+			if k, isK := in.Low.(*ssa.Const); isK && k.Value != nil {
+				if pat, g, ok := a.w.regexOfSubmatch(in.X); ok {
+					if min, ok := regexGroupMinLen(pat, g); ok && k.Int64() <= int64(min) {
+						proved = true
+						reasons = append(reasons, fmt.Sprintf("low<=len: group %d of %q takes part in every match and matches at least %d bytes", g, pat, min))
+					}
+				}
+			}
+			if !proved {
+				problems = append(problems, "low <= len not proven ("+why+")")
+			}
 		} else {
 			reasons = append(reasons, "low<=len")
 		}
